@@ -50,6 +50,33 @@ RunStrict(v, cons, x) ==
        IF here = {} THEN RunStrict(v, cons, x + 1)
        ELSE LET r == Strict(v, cons[CHOOSE y \in here : TRUE]) IN IF r.ok THEN RunStrict(r.v, cons, x + 1) ELSE r
 
+
+(* ---- M: lax (transforming) validators as coded (C03) ------------------------------------------------------------- *)
+\* helpers on exact rationals: floor(a / m) * m  for m > 0, as [n, d]
+FloorDivMul(a, m) == LET q == (a.n * m.d) \div (a.d * m.n) IN [n |-> q * m.n, d |-> m.d]
+Take(v, k) == IF Container(v) THEN [v EXCEPT !.items = SubSeq(v.items, 1, k), !.ln = k] ELSE [v EXCEPT !.ln = k, !.s = "?"]
+RECURSIVE Dedup(_, _)
+Dedup(items, acc) == IF items = <<>> THEN acc
+                     ELSE IF \E y \in 1..Len(acc) : PyEq(Head(items), acc[y]) THEN Dedup(Tail(items), acc)
+                     ELSE Dedup(Tail(items), Append(acc, Head(items)))
+LaxV(v, c) ==
+  CASE c.c = "ge" -> IF NumLT(v, c) THEN OkV([v EXCEPT !.n = c.n, !.d = c.d]) ELSE OkV(v)           \* return ge
+    [] c.c = "le" -> IF NumLT(c, v) THEN OkV([v EXCEPT !.n = c.n, !.d = c.d]) ELSE OkV(v)
+    [] c.c = "length" -> IF LenCode(v) = c.n THEN OkV(v)
+                         ELSE IF ~Sized(v) \/ LenCode(v) < c.n THEN FailV(v) ELSE OkV(Take(v, c.n))   \* value[:lg]
+    [] c.c = "max_length" -> IF LenCode(v) <= c.n THEN OkV(v) ELSE IF ~Sized(v) THEN FailV(v) ELSE OkV(Take(v, c.n))
+    [] c.c = "multiple_of" -> IF MultipleOf(v, c) THEN OkV(v)
+                              ELSE LET f == FloorDivMul(v, c) IN OkV([v EXCEPT !.n = f.n, !.d = f.d]) \* (value // of) * of
+    [] c.c = "unique_items" -> OkV([v EXCEPT !.items = Dedup(v.items, <<>>)])
+    [] c.c = "const" -> OkV(c.vals[1])
+    [] c.c = "enum" -> IF InList(v, c.vals) THEN OkV(v) ELSE OkV(c.vals[1])                           \* list(lst)[0]
+    [] OTHER -> OkV(v)                                                                               \* rounding validators: not modelled
+\* P for C03 on the model: one lax step is a fixed point and, on exact domains, satisfies the strict form
+Modelled(c) == c.c \in {"ge", "le", "length", "max_length", "multiple_of", "unique_items", "const", "enum"}
+P_LaxFixedPoint(v, c) == Modelled(c) /\ LaxV(v, c).ok =>
+                           /\ LaxV(LaxV(v, c).v, c).ok /\ PyEq(LaxV(LaxV(v, c).v, c).v, LaxV(v, c).v)
+                           /\ SatDoc(LaxV(v, c).v, c)
+
 (* ---- P for C02 on one recorded case: [T (rule), x, ok, out, isinst] ---- *)
 \* contains counts the elements that match the contains type, i.e. that it accepts when parsed alone
 \* (references/rule.md: ConTuple([1, True, b'1', '1.0']) has 4 matches); logged per element as r.cacc
@@ -62,4 +89,11 @@ P_Unaltered(r) == r.ok => PyEq(r.out, r.x)
 P_IsInstance(r) == r.isinst = AllDoc(r)
 (* M |= P on a (value, rule) pair of the grid *)
 P_CodeMeetsDoc(v, T) == RunStrict(v, T.cons, 1).ok = Conforms(v, [T EXCEPT !.contains = <<>>, !.args = <<>>])
+
+(* ---- P for C03 on one recorded case: [T, x, ok1, v1, ok2, v2, exact] ---- *)
+\* "returns an equal value": Python equality (a union may hand back 1 first and Decimal('1') for it afterwards)
+P_Idempotent(r) == r.ok1 => r.ok2 /\ PyEq(r.v2, r.v1)
+\* on exact domains the output of a lax constraint satisfies its strict form
+P_LaxStrict(r) == (r.ok1 /\ r.exact /\ r.T.k = "rule") =>
+                    \A y \in 1..Len(r.T.cons) : r.T.cons[y].lax => SatDoc(r.v1, r.T.cons[y])
 =============================================================================
